@@ -353,6 +353,7 @@ class Configuration(_Configuration):
 
         self._neighbors: dict[str, Any] = {}
         self._previous_neighbors: dict[str, Any] = {}
+        self._previous_processes: dict[str, Any] = {}
 
     @classmethod
     def from_settings(cls, settings: 'ConfigurationSettings') -> 'Configuration':
@@ -485,6 +486,7 @@ class Configuration(_Configuration):
         return self.parser.tokeniser
 
     def _clear(self) -> None:
+        self._previous_processes = self.processes
         self.processes = {}
         self._previous_neighbors = self.neighbors
         self.neighbors = {}
@@ -522,10 +524,16 @@ class Configuration(_Configuration):
         self.operational.clear()
 
     def _rollback_reload(self) -> None:
+        # nothing of a configuration which failed to load may replace the running one
         self.neighbors = self._previous_neighbors
-        self.processes = self.process.processes
+        self.processes = self._previous_processes
         self._neighbors = {}
         self._previous_neighbors = {}
+        self._previous_processes = {}
+        # forget the half-parsed configuration (or the next reload trips over it), keep the line for the report
+        line = self.parser.index_line
+        self._cleanup()
+        self.parser.index_line = line
 
     def _commit_reload(self) -> None:
         self.neighbors = self.neighbor.neighbors
@@ -570,28 +578,40 @@ class Configuration(_Configuration):
         fname = self._configurations.pop(0)
         self._configurations.append(fname)
 
-        # clearing the current configuration to be able to re-parse it
-        self._clear()
-
-        if self._text:
-            if not self.parser.set_text(fname):
-                return False
-        else:
+        target = ''
+        if not self._text:
             # resolve any potential symlink, and check it is a file
             target = os.path.realpath(fname)
             if not os.path.isfile(target):
                 return False
-            if not self.parser.set_file(target):
+
+        # clearing the current configuration to be able to re-parse it
+        self._clear()
+
+        try:
+            if self._text:
+                loaded = self.parser.set_text(fname)
+            else:
+                loaded = self.parser.set_file(target)
+            if not loaded:
+                self._rollback_reload()
                 return False
 
-        self.process.add_api()
+            self.process.add_api()
 
-        if self.parse_section('root') is not True:
+            if self.parse_section('root') is not True:
+                line_str = ' '.join(self.parser.line)
+                location = self.scope.location()
+                number = self.parser.number
+                reason = str(self.error)
+                self._rollback_reload()
+                return self.error.set(
+                    f'\nsyntax error in section {location}\nline {number}: {line_str}\n\n{reason}',
+                )
+        except BaseException:
+            # an unreadable file or a parser exception must leave the running configuration alone
             self._rollback_reload()
-            line_str = ' '.join(self.parser.line)
-            return self.error.set(
-                f'\nsyntax error in section {self.scope.location()}\nline {self.parser.number}: {line_str}\n\n{self.error!s}',
-            )
+            raise
 
         self._commit_reload()
         self._link()
